@@ -92,6 +92,44 @@ META.update({
         note="The frame obligations (modifies = {}) on the real functions are being brought under PyVC contract function by function; until then the claim is bounded." + B_NOTE,
         technique="bounded frame check (modifies nothing) of the read-only API",
         assumptions=["read-only API list of bounded/c10.py"]),
+    "C13": dict(
+        built=True, bounded=True, level="exploration", tierP=False, min_obligations=0, design="§6 C13",
+        claim=("BOUNDED (exhaustive within the bound): for every set of <=3 (quick) / <=4 (thorough) of 17 line kinds x explicit version None/gfa1/gfa2, ALL orders of the lines give the same outcome, "
+               "which equals the oracle F(set of kinds): gfa1 / gfa2 / VersionError for mixed evidence or an unknown VN; every line ends up in the Gfa exactly once."),
+        note="Oracle written from the property text (bounded/c13.py). vlevel 1; lines are added one by one and the queue processed, so that missing-segment validation does not mask the version outcome." + B_NOTE,
+        technique="bounded check of the version decision against an order-free oracle over all permutations",
+        assumptions=["line kinds of bounded/c13.py"]),
+    "C16": dict(
+        built=True, bounded=True, level="exploration", tierP=False, min_obligations=0, design="§6 C16",
+        claim=("BOUNDED: on seeded random GFA1 and GFA2 graphs (<=4 segments, <=5 edges from an orientation-complete pool with self-links, hairpins, containments, internal alignments), optionally after "
+               "removing a segment, connected_components equals the union-find classes over the dovetail records of the document, segment_connected_component returns the class of its argument, "
+               "and n_dovetails / n_containments / n_internals / n_dead_ends equal the counts over the records and segment ends."),
+        note="Oracle: bounded/oracle.py (union-find, independent E-line classification)." + B_NOTE,
+        technique="bounded check of the topology queries against a union-find oracle",
+        assumptions=["graphs of bounded/c16.py (VERIF_SEED)"]),
+    "C18": dict(
+        built=True, bounded=True, level="other", min_obligations=100, design="§6 C18",
+        claim=("PROVED (all strings): for the datatype modules within reach, L(decode) and L(validate_encoded) coincide with the grammar (hence input accepted by the safe decoder is accepted by every "
+               "other level's check of the same datatype) and unsafe_decode raises only gfapy.Error. BOUNDED: same canonical content and text at levels 0-3 and monotone acceptance on the catalogue and "
+               "the tag value pool; assignment programs per tag datatype (valid/invalid values; reported at set at level 3, at write at level 2, by validate()/validate_field() at every level)."),
+        note="Known finding KF-level0-echo: level 0 echoes non-canonical delayed values." + B_NOTE,
+        technique=TECH_PB,
+        assumptions=["value pools of bounded/c18.py"]),
+    "C19": dict(
+        built=True, bounded=True, level="exploration", tierP=False, min_obligations=0, design="§6 C19",
+        claim=("BOUNDED: every line (and the merged header) of catalogue Gfas, incl. J/B/H-tagged lines, repeated header tags, fragments and custom records, at vlevel 0/1/3: the clone is detached, "
+               "reference-free, writes the same text, compares equal; editing in place every mutable value reachable from the clone never changes the original or its Gfa, and vice versa."),
+        note="The alias table of clone() (which value classes are copied / shared) is being brought under PyVC contract; until then bounded." + B_NOTE,
+        technique="bounded check of the clone contract (fresh, equal, no shared mutable state)",
+        assumptions=["mutation procedure of bounded/c19.py"]),
+    "C20": dict(
+        built=True, bounded=True, level="exploration", tierP=False, min_obligations=0, design="§6 C20",
+        claim=("BOUNDED (exhaustive over the pool): integers at every B-subtype boundary +-1 and beyond, finite/non-finite floats, strings incl. tabs/newlines/non-ASCII, characters, nested JSON, integer "
+               "arrays spanning and exceeding each subtype, float/mixed/empty arrays, byte arrays x declared or default datatype x vlevel 0-3: default datatype, written syntax in the grammar, smallest "
+               "array subtype, reparse gives an equal value with the same datatype; unrepresentable values are reported by validate() and by writing at level >= 2."),
+        note="bool is outside the stated value set (written as i:True): recorded as assumption, not claimed." + B_NOTE,
+        technique="bounded check of set/write/parse round trip against the grammar oracle",
+        assumptions=["value pool of bounded/c20.py", "bool values excluded"]),
 })
 
 NOT_BUILT_REASON = "check not built yet at this commit (work in progress; see DESIGN.md §7 priorities)"
